@@ -395,22 +395,104 @@ def regex_cases(rng, text, n):
     return out
 
 
-def independent_regex(text_impl_cfg, label, pattern_strs):
-    """independent computation of the regex result from the implementation's graph dump: reachability over
-    instruction-level successors reconstructed from the block graph; returns (match start lines, cover set)"""
-    g = text_impl_cfg
-    blocks = {b["idx"]: b for b in g["blocks"]}
-    succ = {}
-    text_of = {}
-    first_line = {b["idx"]: b["lines"][0] for b in g["blocks"]}
-    for b in g["blocks"]:
-        for k, ln in enumerate(b["lines"]):
-            text_of[ln] = b["ins"][k]
-            if k + 1 < len(b["lines"]):
-                succ[ln] = [b["lines"][k + 1]]
-            else:
-                succ[ln] = None  # filled below from instruction-level semantics
-    return succ, text_of
+def _norm_line(line):
+    """comment-stripped, whitespace-normalised text of a line with integer tokens in decimal (what str() of the parsed
+    instruction compares); None for blank / comment lines.  Lines with string literals are returned verbatim-trimmed."""
+    import avm
+    l = line.strip()
+    if '"' not in l and "//" in l:
+        l = l[:l.index("//")].strip()
+    if not l:
+        return None
+    if '"' in l:
+        return l
+    toks = l.split()
+    out = [toks[0]]
+    for t in toks[1:]:
+        try:
+            out.append(str(avm.parse_int(t)))
+        except Exception:  # pylint: disable=broad-except
+            out.append(t)
+    return " ".join(out)
+
+
+def independent_regex(text, label, pattern):
+    """the property, computed from the SOURCE TEXT only (independent of tealer and of the model): instruction-level
+    successors (fall-through unless b/err/return/retsub; jump targets of b/bz/bnz/switch/match/callsub),
+    reachability from the label (or the first instruction for `*`), straight-line occurrences of the pattern,
+    covered = reachable instructions from which a match start is reachable in >= 1 steps.
+    Returns (sorted match start lines, sorted covered lines) or None when the case is outside what this oracle reads."""
+    ins = []   # (lineno, normalised text)
+    for n, raw in enumerate(text.split("\n"), 1):
+        t = _norm_line(raw)
+        if t is not None:
+            ins.append((n, t))
+    pat = [x for x in (_norm_line(l) for l in pattern.split("\n")) if x is not None]
+    if not pat or any('"' in t for _, t in ins) or any('"' in t for t in pat):
+        return None
+    labels = {}
+    for k, (_, t) in enumerate(ins):
+        if t.endswith(":") and " " not in t:
+            labels[t[:-1]] = k
+    nxt = []
+    for k, (_, t) in enumerate(ins):
+        op = t.split()[0]
+        args = t.split()[1:]
+        succ = []
+        if op not in ("b", "err", "return", "retsub") and k + 1 < len(ins):   # callsub: callee entry AND (after the return) the next line
+            succ.append(k + 1)
+        if op in ("b", "bz", "bnz", "callsub", "switch", "match"):
+            for a in args:
+                if a not in labels:
+                    return None
+                succ.append(labels[a])
+        nxt.append(succ)
+    def closure(srcs):
+        seen, todo = set(), list(srcs)
+        while todo:
+            k = todo.pop()
+            if k in seen:
+                continue
+            seen.add(k)
+            todo += nxt[k]
+        return seen
+    if label == "*":
+        start = 0
+    elif label in labels:
+        start = labels[label]
+        # known finding D29: a label inside pruned code is unknown to the tool.  Retained = reachable from the entry
+        # or from any callsub target (C04).
+        callees = [labels[t.split()[1]] for _, t in ins if t.split()[0] == "callsub" and len(t.split()) == 2 and t.split()[1] in labels]
+        if start not in closure([0] + callees):
+            return None
+    else:
+        return [], []
+    reach, todo = set(), [start]
+    while todo:
+        k = todo.pop()
+        if k in reach:
+            continue
+        reach.add(k)
+        todo += nxt[k]
+
+    def is_match(k):
+        cur = k
+        for j, ptxt in enumerate(pat):
+            if cur is None or ins[cur][1] != ptxt:
+                return False
+            loc = nxt[cur][:-1] if ins[cur][1].split()[0] == "callsub" else nxt[cur]   # a call is not a branch: the line after it continues the straight line
+            cur = loc[0] if len(loc) == 1 else None
+        return True
+    starts = [k for k in sorted(reach) if is_match(k)]
+    cov, todo = set(), list(starts)
+    prev = {k: [j for j in range(len(ins)) if k in nxt[j]] for k in range(len(ins))}
+    while todo:
+        k = todo.pop()
+        for j in prev[k]:
+            if j in reach and j not in cov:
+                cov.add(j)
+                todo.append(j)
+    return sorted(ins[k][0] for k in starts), sorted(ins[k][0] for k in cov)
 
 
 def run_c20(ctx):
@@ -448,6 +530,7 @@ def run_c20(ctx):
     m, i = corr.run_both(reqs)
     nd = 0
     nmatch = 0
+    norc = 0
     for kind, rid, _, _ in reqs:
         a, b = m[rid], i[rid]
         if "err" in a or "err" in b:
@@ -458,6 +541,16 @@ def run_c20(ctx):
             continue
         if b["matches"]:
             nmatch += 1
+        exp = independent_regex(meta[rid][1], meta[rid][2], meta[rid][3])
+        if exp is not None:
+            norc += 1
+            got_starts = sorted(mm[0] for mm in b["matches"])
+            if got_starts != exp[0] or len(set(got_starts)) != len(got_starts):
+                ctx["violations"].append((f"{meta[rid][0]}: regex label={meta[rid][2]!r} pattern={meta[rid][3]!r}: reported match starts (lines) {got_starts}, reachable straight-line occurrences are at {exp[0]}",
+                                          {"kind": "regex-matches", "program": meta[rid][1], "label": meta[rid][2], "pattern": meta[rid][3]}))
+            elif sorted(b["covered"]) != exp[1]:
+                ctx["violations"].append((f"{meta[rid][0]}: regex label={meta[rid][2]!r} pattern={meta[rid][3]!r}: covered lines {sorted(b['covered'])}, the instructions on a path from the label to a match are {exp[1]}",
+                                          {"kind": "regex-covered", "program": meta[rid][1], "label": meta[rid][2], "pattern": meta[rid][3]}))
         if a["matches"] != b["matches"] or a["covered"] != b["covered"]:
             nd += 1
             if nd <= 3:
@@ -465,23 +558,32 @@ def run_c20(ctx):
     cov["traces_validated_against_impl"] = len(reqs)
     cov["evaluations"] = len(reqs)
     cov["distinct_nontrivial"] = nmatch
-    cov["rule"] = "regex queries = (program, label, pattern of 1-4 instructions) over adversarial + random programs; non-trivial = at least one match"
+    cov["independent_oracle_cases"] = norc
+    cov["rule"] = "regex queries = (program, label, pattern of 1-4 instructions) over adversarial + random programs + repeated-run programs; each also decided by an independent reachability computation from the source text; non-trivial = at least one match"
     cov["disagreements"] = nd
     replay_known_regex(ctx)
 
 
 def replay_known_regex(ctx):
-    kf = {f["id"]: f for f in ctx["known"].get("findings", [])}
-    f = kf.get("D14")
-    if not f:
-        return
-    text = f["pattern"] + "\n@@----\n" + f["program"]
-    m, i = corr.run_both([("regex", "k", text, [f["label"]])], shards=1)
-    got = i["k"].get("covered")
-    if got is not None and sorted(got) != sorted(f["covered_should_be"]):
-        ctx["known_lines"].append(f"KNOWN-FINDING: property=C20 D14: {f['title']} (covered lines {got}, every instruction on a path to the match is {f['covered_should_be']})")
-    else:
-        ctx["cov"].setdefault("known_findings_no_longer_reproduced", []).append("D14")
+    for f in ctx["known"].get("findings", []):
+        if "C20" not in f["properties"] or "pattern" not in f:
+            continue
+        text = f["pattern"] + "\n@@----\n" + f["program"]
+        _, i = corr.run_both([("regex", "k", text, [f["label"]])], shards=1)
+        still = False
+        why = ""
+        if "covered_should_be" in f:
+            got = i["k"].get("covered")
+            still = got is not None and sorted(got) != sorted(f["covered_should_be"])
+            why = f"covered lines {got}, every instruction on a path to the match is {f['covered_should_be']}"
+        if "matches_should_be" in f:
+            got = sorted(mm[0] for mm in i["k"].get("matches", []))
+            still = got != sorted(f["matches_should_be"])
+            why = f"match starts {got}, reachable occurrences start at lines {f['matches_should_be']}"
+        if still:
+            ctx["known_lines"].append(f"KNOWN-FINDING: property=C20 {f['id']}: {f['title']} ({why})")
+        else:
+            ctx["cov"].setdefault("known_findings_no_longer_reproduced", []).append(f["id"])
 
 def run_c05(ctx):
     def extra(ctx, results):
@@ -663,6 +765,15 @@ def run_c12(ctx):
     cov["traces_validated_against_impl"] = len(reqs)
     cov["evaluations"] = len(reqs)
     cov["distinct_nontrivial"] = long_paths
+    # known findings of the function construction are replayed on the implementation
+    for f in ctx["known"].get("findings", []):
+        if "C12" in f["properties"] and "dispatch_path" in f:
+            _, ii = corr.run_both([("function", "k", f["program"], f["dispatch_path"])], shards=1)
+            got = ii["k"].get("paths", {}).get(f["detector"])
+            if f.get("expect_reported") and got == []:
+                ctx["known_lines"].append(f"KNOWN-FINDING: property=C12 {f['id']}: {f['title']} (path {f['dispatch_path']}: {f['detector']} reports nothing although the execution 0 1 3 1 2 of the contract starts with the path and approves any RekeyTo)")
+            else:
+                cov.setdefault("known_findings_no_longer_reproduced", []).append(f["id"])
     cov["rule"] = "(program, dispatch path) pairs: every root-to-block prefix (length <= 4, sampled to 5 per program) of the main graph of adversarial + random programs; non-trivial = path longer than [B0]"
     cov["disagreements"] = nd
 
@@ -711,14 +822,111 @@ def gen_group(rng):
     return "\n".join(lines)
 
 
+def gen_group_directed(rng):
+    """group configurations in which members really read each other: every transaction runs its own small logic-sig
+    that is trivial, checks its own field, or checks ANOTHER member's field through the configured absolute index or
+    relative offset (consistent with one hidden assignment of positions); absolute indices are often omitted"""
+    ntx = rng.choice([2, 2, 3, 3, 4])
+    pos = rng.sample(range(0, 6), ntx)
+    ids = [f"T{k}" for k in range(ntx)]
+    fld, ty = rng.choice([("RekeyTo", "Any"), ("RekeyTo", "Pay"), ("CloseRemainderTo", "Pay"), ("AssetCloseTo", "Axfer"), ("Fee", "Any"), ("Fee", "Pay")])
+    check = ["int 1000", "<="] if fld == "Fee" else ["global ZeroAddress", "=="]
+    lines, tl, progs = [], [], []
+    for k in range(ntx):
+        kind = rng.choice(["trivial", "trivial", "self", "rel", "rel", "abs", "random"])
+        others = [o for o in range(ntx) if o != k]
+        o = rng.choice(others)
+        rel = []
+        if kind == "trivial":
+            prog = ["#pragma version 6", "int 1", "return"]
+        elif kind == "self":
+            prog = ["#pragma version 6", f"txn {fld}"] + check + ["assert", "int 1", "return"]
+        elif kind == "rel":
+            off = pos[o] - pos[k]
+            prog = ["#pragma version 6", "txn GroupIndex", f"int {abs(off)}", "+" if off >= 0 else "-", f"gtxns {fld}"] + check + ["assert", "int 1", "return"]
+            if rng.random() < 0.85:
+                rel.append(f"{off}={ids[o]}")
+        elif kind == "abs":
+            prog = ["#pragma version 6", f"gtxn {pos[o]} {fld}"] + check + ["assert", "int 1", "return"]
+        else:
+            prog = gen.random_program(rng, kf_free=True)[0].split("\n")
+        for o2 in others:
+            if rng.random() < 0.15:
+                rel.append(f"{pos[o2] - pos[k]}={ids[o2]}")
+        lines.append(f"C 1 {len(prog)}")
+        lines += prog
+        lines.append("P 0")
+        ab = str(pos[k]) if rng.random() < 0.5 else "-"
+        tl.append(f"T {ids[k]} {rng.choice([ty, ty, 'Any'])} 1 {k} - {ab} {','.join(rel) if rel else '-'}")
+        progs.append("\n".join(prog))
+    order = list(range(ntx))
+    rng.shuffle(order)
+    DIRECTED_META["\n".join(lines + [tl[k] for k in order])] = {"pos": pos, "ids": ids, "field": fld, "type": ty, "programs": progs}
+    return "\n".join(lines + [tl[k] for k in order])
+
+
+DIRECTED_META = {}
+FIELD_DETECTOR = {"RekeyTo": "rekey-to", "CloseRemainderTo": "can-close-account", "AssetCloseTo": "can-close-asset", "Fee": "missing-fee-check"}
+
+
+def group_semantics_oracle(meta, verdict):
+    """first half of C13 on a directed configuration: enumerate which members carry the dangerous value, run every
+    member's logic-sig with the independent interpreter on the concrete group (positions = the hidden assignment, which
+    satisfies every configured absolute index and offset); if all approve, every member carrying the dangerous value
+    must be in the detector's verdict.  Returns a list of (message, concrete group)"""
+    import itertools
+    import avm
+    pos, ids, fld, ty, progs = meta["pos"], meta["ids"], meta["field"], meta["type"], meta["programs"]
+    det = FIELD_DETECTOR[fld]
+    size = max(pos) + 1
+    tenum = {"CloseRemainderTo": 1, "AssetCloseTo": 4}.get(fld, 1 if ty in ("Pay", "Any") else 4)
+    out = []
+    try:
+        parsed = [avm.Program(t) for t in progs]
+    except Exception:  # pylint: disable=broad-except
+        return out
+    for mask in itertools.product([False, True], repeat=len(pos)):
+        if not any(mask):
+            continue
+        group = []
+        for i in range(size):
+            txn = {"_index": i, "Fee": 1000, "TypeEnum": tenum, "OnCompletion": 0, "ApplicationID": 0, "Amount": 0, "NumAppArgs": 0,
+                   "FirstValid": 1, "LastValid": 10, "Sender": ("addr", "S"), "Receiver": ("addr", "R")}
+            for f in ("RekeyTo", "CloseRemainderTo", "AssetCloseTo"):
+                txn[f] = ("addr", avm.ZERO)
+            group.append(txn)
+        for k, dangerous in enumerate(mask):
+            if dangerous:
+                group[pos[k]][fld] = 272001 if fld == "Fee" else ("addr", "FRESHADDR")
+        ok = True
+        for k, prog in enumerate(parsed):
+            try:
+                approved, _ = avm.run(prog, {"group": group, "index": pos[k], "creator": "CREATOR"})
+            except avm.Unsupported:
+                ok = False
+                break
+            if not approved:
+                ok = False
+                break
+        if not ok:
+            continue
+        for k, dangerous in enumerate(mask):
+            if dangerous and ids[k] not in verdict.get(det, []):
+                out.append((f"group approved by every member's logic-sig while {ids[k]} (position {pos[k]}) carries the dangerous {fld}, but {det} does not report {ids[k]} (reported: {verdict.get(det)})",
+                            {"positions": dict(zip(ids, pos)), "dangerous": [ids[j] for j, d in enumerate(mask) if d], "field": fld}))
+                return out
+    return out
+
+
 def run_c13(ctx):
     cov = ctx["cov"]
     rng = ctx["rng"]
     n = 150 if ctx["tier"] == "quick" else 1500
-    reqs = [("group", f"g{k}", gen_group(rng), []) for k in range(n)]
+    reqs = [("group", f"g{k}", gen_group(rng) if k % 3 == 0 else gen_group_directed(rng), []) for k in range(n)]
     m, i = corr.run_both(reqs)
     nd = 0
     nvuln = 0
+    nsem = 0
     for kind, rid, t, _ in reqs:
         a, b = m[rid], i[rid]
         if "err" in a or "err" in b:
@@ -729,6 +937,10 @@ def run_c13(ctx):
             continue
         if any(b[d] for d in b):
             nvuln += 1
+        if t in DIRECTED_META:
+            nsem += 1
+            for msg, grp in group_semantics_oracle(DIRECTED_META[t], b)[:1]:
+                ctx["violations"].append((msg, {"kind": "group-semantics", "config": t, "concrete_group": grp}))
         for d in b:
             if sorted(a.get(d, [])) != sorted(b[d]):
                 nd += 1
@@ -738,7 +950,8 @@ def run_c13(ctx):
     cov["traces_validated_against_impl"] = len(reqs)
     cov["evaluations"] = len(reqs)
     cov["distinct_nontrivial"] = nvuln
-    cov["rule"] = "group configurations: 1-2 contracts (random fragment programs, stateful or stateless), 1-3 transactions with random types / logic-sig / application / absolute index / relative offsets; non-trivial = some transaction reported vulnerable"
+    cov["group_semantics_oracle_configs"] = nsem
+    cov["rule"] = "group configurations: (a) 1-2 contracts (random fragment programs, stateful or stateless), 1-3 transactions with random types / logic-sig / application / absolute index / relative offsets; (b) directed: 2-4 transactions each with its own logic-sig that is trivial / checks its own field / checks another member through the configured offset or absolute index, absolute indices often omitted, listing order shuffled, checked by the concrete group-semantics oracle; non-trivial = some transaction reported vulnerable"
     cov["disagreements"] = nd
 
 
